@@ -57,6 +57,11 @@ pub fn commit(srs: &Srs, coeffs: &[F]) -> Option<G1Affine> {
     if c.len() > srs.powers.len() {
         return None;
     }
+    if c.len() > 200 {
+        // Pippenger MSM of the curve library (not the crate under test)
+        let acc = dusk_bls12_381::multiscalar_mul::msm_variable_base(&srs.powers[..c.len()], &c);
+        return Some(G1Affine::from(acc));
+    }
     let mut acc = G1Projective::identity();
     for (p, s) in srs.powers.iter().zip(&c) {
         if *s != F::zero() {
@@ -124,14 +129,14 @@ pub fn ref_keys(layout: &Layout, label: &[u8], srs: &Srs) -> Option<RefKeys> {
     let mut q = Vec::with_capacity(11);
     for k in 0..11 {
         let col: Vec<F> = layout.rows.iter().map(|r| r.sel[k]).collect();
-        q.push(trim(naive::idft(&col, log_n, F::one())));
+        q.push(trim(interp(&col, log_n)));
     }
     let se = sigma_evals(layout, n, log_n);
     let sigma: [Vec<F>; 4] = [
-        trim(naive::idft(&se[0], log_n, F::one())),
-        trim(naive::idft(&se[1], log_n, F::one())),
-        trim(naive::idft(&se[2], log_n, F::one())),
-        trim(naive::idft(&se[3], log_n, F::one())),
+        trim(interp(&se[0], log_n)),
+        trim(interp(&se[1], log_n)),
+        trim(interp(&se[2], log_n)),
+        trim(interp(&se[3], log_n)),
     ];
     // verifier-key byte order: q_m,q_l,q_r,q_o,q_f,q_c,q_arith,q_logic,q_range,q_fixed,q_var,s1..s4
     let order = [
@@ -203,6 +208,35 @@ pub struct ProofOut {
     pub r_at_z: F,
 }
 
+/// Above this size the O(n^2) transforms are replaced by the crate's FFT
+/// kernels, which C19 decides separately against the O(n^2) definitions.
+pub const NAIVE_LOG_LIMIT: u32 = 7;
+
+fn interp(vals: &[F], log_n: u32) -> Vec<F> {
+    if log_n <= NAIVE_LOG_LIMIT {
+        naive::idft(vals, log_n, F::one())
+    } else {
+        dusk_plonk::verif::ifft(1usize << log_n, vals).expect("domain")
+    }
+}
+
+/// evaluations of p on the coset g * <w_m> of size 2^log_m
+fn coset_eval(p: &[F], log_m: u32, pts: &[F]) -> Vec<F> {
+    if log_m <= NAIVE_LOG_LIMIT + 3 {
+        eval_on(pts, p)
+    } else {
+        dusk_plonk::verif::coset_fft(1usize << log_m, p).expect("domain")
+    }
+}
+
+fn coset_interp(vals: &[F], log_m: u32) -> Vec<F> {
+    if log_m <= NAIVE_LOG_LIMIT + 3 {
+        naive::idft(vals, log_m, naive::coset_gen())
+    } else {
+        dusk_plonk::verif::coset_ifft(1usize << log_m, vals).expect("domain")
+    }
+}
+
 fn blind(base: Vec<F>, blinders: &[F], n: usize) -> Vec<F> {
     // base + (b0 + b1 X + ...) * (X^n - 1)
     let mut c = base;
@@ -262,7 +296,7 @@ pub fn prove(
     let wires_ev = [col(0), col(1), col(2), col(3)];
     let mut wire_polys: Vec<Vec<F>> = Vec::new();
     for k in 0..4 {
-        let base = naive::idft(&wires_ev[k], log_n, F::one());
+        let base = interp(&wires_ev[k], log_n);
         wire_polys.push(blind(base, &blinders[2 * k..2 * k + 2], n));
     }
     let cm = |p: &[F]| commit(srs, p).ok_or_else(|| "degree exceeds key".to_string());
@@ -279,7 +313,7 @@ pub fn prove(
             dense_pi[*r] = *v;
         }
     }
-    let pi_poly = trim(naive::idft(&dense_pi, log_n, F::one()));
+    let pi_poly = trim(interp(&dense_pi, log_n));
 
     // challenges are derived step by step from a proof under construction
     let mut proof = RefProof {
@@ -313,7 +347,7 @@ pub fn prove(
         z_ev = crate::fe::f_stream(seed, n);
         z_ev[0] = F::one();
     }
-    let z_poly = blind(naive::idft(&z_ev, log_n, F::one()), &blinders[8..11], n);
+    let z_poly = blind(interp(&z_ev, log_n), &blinders[8..11], n);
     proof.comm[refver::P_Z] = cm(&z_poly)?;
     let ch2 = refver::challenges(&keys.rv, &proof, &pi_vals, version);
     let alpha = ch2.alpha;
@@ -332,16 +366,17 @@ pub fn prove(
         }
         v
     };
-    let ev_w: Vec<Vec<F>> = wire_polys.iter().map(|p| eval_on(&pts, p)).collect();
+    let ce = |p: &[F]| coset_eval(p, log_m, &pts);
+    let ev_w: Vec<Vec<F>> = wire_polys.iter().map(|p| ce(p)).collect();
     let ev_w_next: Vec<Vec<F>> = wire_polys
         .iter()
-        .map(|p| eval_on(&pts, &shift_arg(p, &w)))
+        .map(|p| ce(&shift_arg(p, &w)))
         .collect();
-    let ev_z = eval_on(&pts, &z_poly);
-    let ev_z_next = eval_on(&pts, &shift_arg(&z_poly, &w));
-    let ev_q: Vec<Vec<F>> = keys.q.iter().map(|p| eval_on(&pts, p)).collect();
-    let ev_s: Vec<Vec<F>> = keys.sigma.iter().map(|p| eval_on(&pts, p)).collect();
-    let ev_pi = eval_on(&pts, &pi_poly);
+    let ev_z = ce(&z_poly);
+    let ev_z_next = ce(&shift_arg(&z_poly, &w));
+    let ev_q: Vec<Vec<F>> = keys.q.iter().map(|p| ce(p)).collect();
+    let ev_s: Vec<Vec<F>> = keys.sigma.iter().map(|p| ce(p)).collect();
+    let ev_pi = ce(&pi_poly);
     let n_f = F::from(n as u64);
     let mut quot_ev = Vec::with_capacity(m);
     for i in 0..m {
@@ -377,7 +412,7 @@ pub fn prove(
         num += idp - cpp + (ev_z[i] - F::one()) * l1 * alpha.square();
         quot_ev.push(num * zh.invert().ok_or("coset meets domain")?);
     }
-    let mut t = trim(naive::idft(&quot_ev, log_m, g));
+    let mut t = trim(coset_interp(&quot_ev, log_m));
     let divisible = t.len() <= 4 * n + 7;
     if !divisible {
         if !dev.drop_remainder {
